@@ -133,3 +133,157 @@ Qed.
 Theorem first_call_only_starts_clock als s :
   deduct_take_rate ZERO_TIME als s = Ok als (set_params (set_p_last (now s) (params s)) s).
 Proof. unfold deduct_take_rate, bind, gets. cbn. reflexivity. Qed.
+
+(* ---------- the clock, exactly (never retroactive) ---------- *)
+Definition take_body (t n : Z) (acc : list Asset * Coins * Z) (a : Asset) : M (list Asset * Coins * Z) :=
+  let '(out, coins, cnt) := acc in
+  if (0 <? a_tokens a) && (0 <? a_take a) && rewards_started a t then
+    m <- opt_or_panic P_OVERFLOW (dpow (ONE - a_take a) n) ;;
+    let na := dmul_int m (a_tokens a) in
+    if na <=? ONE then ret (out ++ [a], coins, cnt + 1)
+    else
+      let a' := set_a_tokens (dtrunc na) a in
+      (if a_tokens a - a_tokens a' <? 0 then panic P_NEG_COIN else ret tt) ;;;
+      set_asset a' ;;;
+      ret (out ++ [a'], cadd1 coins (a_denom a) (a_tokens a - a_tokens a'), cnt + 1)
+  else ret (out ++ [a], coins, cnt).
+
+(* nothing chargeable: the loop is the identity *)
+Lemma take_loop_idle t n als : Forall (fun a => chargeable t a = false) als ->
+  forall o0 c0 n0 s, mfold als (o0, c0, n0) (take_body t n) s = Ok (o0 ++ als, c0, n0) s.
+Proof.
+  induction 1 as [|a als Ha _ IH]; intros o0 c0 n0 s; cbn [mfold]; [rewrite app_nil_r; reflexivity|].
+  unfold bind at 1. unfold take_body at 1. unfold chargeable in Ha. rewrite Ha. cbn [ret].
+  rewrite IH. rewrite <- app_assoc. reflexivity.
+Qed.
+
+Definition cpos (c : Coins) : Prop := Forall (fun da => 0 < snd da) c.
+Lemma cadd1_pos c d x : cpos c -> 0 < x -> cpos (cadd1 c d x) /\ cadd1 c d x <> [].
+Proof.
+  intros Hc Hx. induction Hc as [|[d' a'] c Ha Hc IH]; cbn [cadd1].
+  - assert (E : x =? 0 = false) by (apply Z.eqb_neq; lia). rewrite E. split; [repeat constructor; exact Hx | discriminate].
+  - cbn [snd] in Ha. destruct (d <? d').
+    + assert (E : x =? 0 = false) by (apply Z.eqb_neq; lia). rewrite E.
+      split; [constructor; [exact Hx | constructor; assumption] | discriminate].
+    + destruct (d =? d').
+      * assert (E : x + a' =? 0 = false) by (apply Z.eqb_neq; lia). rewrite E.
+        split; [constructor; [cbn; lia | exact Hc] | discriminate].
+      * split; [constructor; [exact Ha | apply IH] | discriminate].
+Qed.
+Lemma set_tokens_same a : set_a_tokens (a_tokens a) a = a.
+Proof. destruct a; reflexivity. Qed.
+
+Definition pnow (s : State) := (params s, now s).
+Lemma take_loop_charged t n als : forall o0 c0 n0 s, cpos c0 ->
+  match mfold als (o0, c0, n0) (take_body t n) s with
+  | Ok (out, coins, cnt) s' =>
+    pnow s' = pnow s /\ cpos coins /\ n0 <= cnt /\ (c0 <> [] -> coins <> []) /\
+    exists outs, out = o0 ++ outs /\ (outs <> als -> coins <> [] /\ n0 < cnt)
+  | _ => True
+  end.
+Proof.
+  induction als as [|a als IH]; intros o0 c0 n0 s Hc0; cbn [mfold].
+  - cbn. repeat split; auto; try lia. exists []; split; [rewrite app_nil_r; reflexivity | intros H; congruence].
+  - unfold bind at 1. unfold take_body at 1.
+    destruct ((0 <? a_tokens a) && (0 <? a_take a) && rewards_started a t).
+    + unfold bind at 1. destruct (dpow (ONE - a_take a) n) as [m|]; cbn [opt_or_panic ret panic]; [|exact I].
+      destruct (dmul_int m (a_tokens a) <=? ONE).
+      * cbn [ret]. specialize (IH (o0 ++ [a]) c0 (n0 + 1) s Hc0).
+        destruct (mfold als _ _ s) as [[[out coins] cnt] s'| |]; auto.
+        destruct IH as (Hp & Hc & Hn & Hne & outs & -> & Hd).
+        repeat split; auto; try lia. exists (a :: outs). split; [rewrite <- app_assoc; reflexivity|].
+        intros Hdiff. assert (outs <> als) by congruence. destruct (Hd H); split; [assumption | lia].
+      * unfold bind at 1. cbn [a_tokens set_a_tokens].
+        set (x := a_tokens a - dtrunc (dmul_int m (a_tokens a))).
+        destruct (x <? 0) eqn:Ex; cbn [panic ret]; [exact I|]. apply Z.ltb_ge in Ex.
+        unfold bind at 1. unfold set_asset at 1, modify. cbn [ret].
+        match goal with |- match mfold als ?acc' _ ?s1 with _ => _ end => set (s1' := s1) end.
+        destruct (Z.eq_dec x 0) as [E0|Hx].
+        -- (* nothing was actually deducted: the record is rewritten as it was *)
+           assert (Hsame : set_a_tokens (dtrunc (dmul_int m (a_tokens a))) a = a).
+           { replace (dtrunc (dmul_int m (a_tokens a))) with (a_tokens a) by (subst x; lia). apply set_tokens_same. }
+           assert (Hc1 : cpos (cadd1 c0 (a_denom a) x)).
+           { rewrite E0. clear - Hc0. induction Hc0 as [|[d' a'] c Ha Hc IH]; cbn [cadd1]; [constructor|].
+             cbn [snd] in Ha. destruct (a_denom a <? d'); [constructor; assumption|].
+             destruct (a_denom a =? d') eqn:E; [|constructor; assumption].
+             assert (E1 : 0 + a' =? 0 = false) by (apply Z.eqb_neq; lia). rewrite E1. constructor; [cbn; lia | exact Hc]. }
+           specialize (IH (o0 ++ [set_a_tokens (dtrunc (dmul_int m (a_tokens a))) a]) (cadd1 c0 (a_denom a) x) (n0 + 1) s1' Hc1).
+           destruct (mfold als _ _ s1') as [[[out coins] cnt] s'| |]; auto.
+           destruct IH as (Hp & Hc & Hn & Hne & outs & -> & Hd).
+           split; [exact Hp|]. split; [exact Hc|]. split; [lia|]. split.
+           { intros H0. apply Hne. rewrite E0. clear - Hc0 H0. destruct Hc0 as [|[d' a'] c Ha Hc]; [congruence|]. cbn [cadd1].
+             cbn [snd] in Ha. destruct (a_denom a <? d'); [discriminate|]. destruct (a_denom a =? d'); [|discriminate].
+             assert (E1 : 0 + a' =? 0 = false) by (apply Z.eqb_neq; lia). rewrite E1. discriminate. }
+           exists (set_a_tokens (dtrunc (dmul_int m (a_tokens a))) a :: outs). split; [rewrite <- app_assoc; reflexivity|].
+           intros Hdiff. rewrite Hsame in Hdiff. assert (outs <> als) by congruence. destruct (Hd H); split; [assumption | lia].
+        -- destruct (cadd1_pos c0 (a_denom a) x Hc0 ltac:(lia)) as [Hc1 Hne1].
+           specialize (IH (o0 ++ [set_a_tokens (dtrunc (dmul_int m (a_tokens a))) a]) (cadd1 c0 (a_denom a) x) (n0 + 1) s1' Hc1).
+           destruct (mfold als _ _ s1') as [[[out coins] cnt] s'| |]; auto.
+           destruct IH as (Hp & Hc & Hn & Hne & outs & -> & Hd).
+           split; [exact Hp|]. split; [exact Hc|]. split; [lia|]. split; [intros _; apply Hne; exact Hne1|].
+           eexists (_ :: outs). split; [rewrite <- app_assoc; reflexivity|].
+           intros _. split; [apply Hne; exact Hne1 | lia].
+    + cbn [ret]. specialize (IH (o0 ++ [a]) c0 n0 s Hc0).
+      destruct (mfold als _ _ s) as [[[out coins] cnt] s'| |]; auto.
+      destruct IH as (Hp & Hc & Hn & Hne & outs & -> & Hd).
+      repeat split; auto. exists (a :: outs). split; [rewrite <- app_assoc; reflexivity|].
+      intros Hdiff. assert (outs <> als) by congruence. exact (Hd H).
+Qed.
+
+Lemma deduct_unfold last als :
+  deduct_take_rate last als =
+  (t <- gets now ;;
+   if last =? ZERO_TIME then set_last_claim t ;;; ret als
+   else
+     iv <- gets (fun s => p_interval (params s)) ;;
+     if iv =? 0 then panic P_DIV_ZERO_INTERVAL
+     else
+       let n := Z.quot (t - last) iv in
+       '(als', coins, cnt) <- mfold als ([], [], 0) (take_body t n) ;;
+       if cnt =? 0 then set_last_claim t ;;; ret als'
+       else if negb (length coins =? 0)%nat then
+         bank_send ACC_ALLIANCE ACC_FEE coins ;;;
+         set_last_claim (last + iv * n) ;;;
+         ret als'
+       else ret als').
+Proof. reflexivity. Qed.
+
+(* while nothing is chargeable the clock follows the block time: stake deposited later is not
+   charged for the idle intervals *)
+Theorem idle_clock_follows_block_time last als s :
+  last <> ZERO_TIME -> p_interval (params s) <> 0 ->
+  Forall (fun a => chargeable (now s) a = false) als ->
+  deduct_take_rate last als s = Ok als (set_params (set_p_last (now s) (params s)) s).
+Proof.
+  intros Hl Hiv Hidle. rewrite deduct_unfold. unfold bind at 1, gets at 1.
+  apply Z.eqb_neq in Hl; rewrite Hl. unfold bind at 1, gets at 1. apply Z.eqb_neq in Hiv; rewrite Hiv.
+  cbv zeta. unfold bind at 1. rewrite (take_loop_idle (now s) _ als Hidle [] [] 0 s). cbn [app].
+  cbn. reflexivity.
+Qed.
+
+Lemma params_bank_send p0 a b c : inv (fun s => pnow s = p0) (bank_send a b c).
+Proof. inv_deep (fun s s' (E : pnow s' = pnow s) (H : pnow s = p0) => eq_trans E H). Qed.
+
+(* whenever the deduction changes an asset record, the clock moves by exactly the n whole
+   intervals charged *)
+Theorem charged_clock_moves_whole_intervals last als s out s' :
+  last <> ZERO_TIME -> deduct_take_rate last als s = Ok out s' -> out <> als ->
+  p_last (params s') = last + p_interval (params s) * Z.quot (now s - last) (p_interval (params s)).
+Proof.
+  intros Hl Hrun Hdiff. rewrite deduct_unfold in Hrun. unfold bind at 1, gets at 1 in Hrun.
+  apply Z.eqb_neq in Hl; rewrite Hl in Hrun. unfold bind at 1, gets at 1 in Hrun.
+  destruct (p_interval (params s) =? 0); [discriminate|]. cbv zeta in Hrun. unfold bind at 1 in Hrun.
+  pose proof (take_loop_charged (now s) (Z.quot (now s - last) (p_interval (params s))) als [] [] 0 s ltac:(constructor)) as L.
+  destruct (mfold als _ _ s) as [[[out' coins] cnt] s1| |]; try discriminate.
+  destruct L as (Hp & _ & _ & _ & outs & Ho & Hd). cbn [app] in Ho. subst out'.
+  destruct (cnt =? 0) eqn:Ec.
+  - unfold set_last_claim, bind, modify in Hrun. cbn in Hrun. inversion Hrun; subst. destruct (Hd Hdiff) as [_ Hlt]. apply Z.eqb_eq in Ec. lia.
+  - destruct (negb (length coins =? 0)%nat) eqn:El.
+    + unfold bind at 1 in Hrun.
+      pose proof (params_bank_send (pnow s1) ACC_ALLIANCE ACC_FEE coins s1 eq_refl) as B.
+      destruct (bank_send ACC_ALLIANCE ACC_FEE coins s1) as [[] s2| |]; try discriminate.
+      unfold set_last_claim, bind, modify in Hrun. cbn in Hrun. inversion Hrun; subst. cbn [params set_params p_last set_p_last].
+      reflexivity.
+    + cbn in Hrun. inversion Hrun; subst. destruct (Hd Hdiff) as [Hne _].
+      destruct coins; [congruence | discriminate].
+Qed.
